@@ -290,7 +290,8 @@ AdditiveAt(o, i) ==
     LET b == o[i] IN
     \A j \in Others(o, i) :
         LET a == o[j] IN
-        (j < i /\ a.cfg # b.cfg /\ a.api = b.api /\ SameCall(a, b) /\ a.fmt = 0 /\ (a.op = "parse" => a.partial = b.partial))
+        (j < i /\ a.cfg # b.cfg /\ a.api = b.api /\ SameCall(a, b) /\ a.fmt = 0 /\ (a.op = "parse" => a.partial = b.partial)
+           /\ ~(a.op = "parse" /\ IsFloatTy(a.ty) /\ a.wo /\ a.opts.lossy))      \* lossy results may differ (C19 bounds them)
         => IF a.op = "write" /\ IsFloatTy(a.ty) /\ (a.feat.compact \/ b.feat.compact)
            THEN a.res.k = b.res.k
            ELSE SameRes(a.res, b.res)
@@ -316,6 +317,31 @@ RoundTripAt(o, i) ==
         => /\ q.res.k = "ok"
            /\ (q.exact => SameVal(q.res.v, w.v))
 
+(* inputs certainly decided by the exact fast path: decimal, significand <= 2^p, not truncated, *)
+(* |exponent| no larger than the largest exactly representable power of ten                    *)
+ConservativeFastPath(ev) ==
+    LET f   == FmtOf(ev)
+        F   == FOf(ev.ty)
+        sc  == ScanComplete("float", f, PFOpts(ev), ev.in, ev.len)
+        x   == FloatExact(sc, f)
+        lim == IF ev.ty = "f32" THEN 10 ELSE 22
+    IN  /\ Radix(f) = 10 /\ ExponentBase(f) = 10
+        /\ sc.v = "A"
+        /\ ~x.sticky /\ Cmp(x.D, Pow2(F.p)) <= 0
+        /\ x.q >= 0 - lim /\ x.q <= lim
+
+(* Zero and infinity results "are unchanged".  Right at the overflow / underflow threshold the   *)
+(* neighbour clause of C19 (a finite result may be a neighbour of the correctly rounded value)   *)
+(* and this clause pull in different directions (max finite is a neighbour of infinity), so the  *)
+(* clause is judged only where the exact value is clearly outside: exactly zero, at least twice  *)
+(* the overflow threshold, or at most a quarter of the smallest subnormal.                       *)
+ClearlyOutside(ev) ==
+    LET f  == FmtOf(ev)
+        F  == FOf(ev.ty)
+        sc == ScanComplete("float", f, PFOpts(ev), ev.in, ev.len)
+        x  == FloatExact(sc, f)
+    IN  sc.v = "A" /\ (XIsZero(x) \/ CmpX(x, One, F.emax + F.p + 1) >= 0 \/ CmpX(x, One, F.emin - 2) <= 0)
+
 (* C19: lossy changes nothing but the value *)
 LossyAgreesAt(o, i) ==
     LET b == o[i] IN
@@ -328,8 +354,9 @@ LossyAgreesAt(o, i) ==
         => /\ a.res.k = b.res.k
            /\ (a.res.k = "ok" => a.res.n = b.res.n)
            /\ (a.res.k = "err" => a.res.code = b.res.code /\ a.res.idx = b.res.idx)
-           /\ (a.res.k = "ok" /\ a.res.v.cls \in {"zero", "inf", "nan"} => SameVal(a.res.v, b.res.v))
-           /\ (a.res.k = "ok" /\ "fastpath" \in DOMAIN b /\ b.fastpath => SameVal(a.res.v, b.res.v))
+           /\ (a.res.k = "ok" /\ a.res.v.cls = "nan" => b.res.v.cls = "nan")
+           /\ (a.res.k = "ok" /\ a.res.v.cls \in {"zero", "inf"} /\ ClearlyOutside(b) => SameVal(a.res.v, b.res.v))
+           /\ (a.res.k = "ok" /\ ConservativeFastPath(b) => SameVal(a.res.v, b.res.v))
 
 RelationsAt(o, i) ==
        V(PartialAgreesAt(o, i),      "C11", "partial and complete parsers disagree")
